@@ -325,6 +325,12 @@ class SVal:
                 return r2
             if r2 is None:
                 return r1
+            # both sides fall through: what the branches established (beyond the test itself) survives as a disjunction
+            n = len(pc)
+            x1, x2 = norm_pc(r1[1][n + 1:]), norm_pc(r2[1][n + 1:])
+            if x1 or x2:
+                d = mk_bool('or', (pc_term(norm_pc(((c, True),)) + x1), pc_term(norm_pc(((c, False),)) + x2)))
+                return self.merge(c, r1[0], r2[0]), pc + ((d, True),)
             return self.merge(c, r1[0], r2[0]), pc
         if isinstance(st, (ast.For, ast.While)):
             return self.loop(st, env, pc)
